@@ -211,6 +211,9 @@ func extra(c *core.Ctx, k *checker, t0 time.Time) {
 	parallel(c, k, t0)
 	weatherFamily(c, k, w, t0)
 	bootstrapOptions(c, k, t0)
+	configured(c, k, t0)
+	shortWrites(c, k, w, t0)
+	commandLine(c, k, t0)
 }
 
 // ---- 10000+: a history continues after an interrupted rotation ----
